@@ -469,8 +469,7 @@ def shipped_nodes(ctx):
 def to_requests(data):
     rec = data['rec']
     base = {'p': PID, 'node': rec['node'], 'oracle': rec['oracle']}
-    return [dict(base, k='describe'),
-            dict(base, k='exchange', steps=[{'req': s['req'], 'drv': s['drv']} for s in rec['steps']] if data.get('generated') else []),
+    return [dict(base, k='describe', steps=[{'req': s['req'], 'drv': s['drv']} for s in rec['steps']] if data.get('generated') else []),
             dict(base, k='judge', text=data['strict'], report1=data['report1'], report2=data['report2'], classes=data['classes'],
                  steps=[{'req': s['req'], 'obs': s['obs'], 'client': s.get('client', False)} for s in rec['steps']],
                  activates=[{'m': a['m'], 'a': a['a'], 'reply': a['reply'], 'subsChanged': a['subsChanged']}
@@ -533,10 +532,11 @@ def run_generated(case):
     return run_node(random.Random(case['seed'] + 1), node, box, case['nodespec'], classes)
 
 
-def evaluate(ctx, res, label, case, data, model, exch, judge):
+def evaluate(ctx, res, label, case, data, model, judge):
     rec = data['rec']
-    if 'driver_error' in model or 'driver_error' in judge or 'driver_error' in exch:
-        raise RuntimeError(f'driver error: {model.get("driver_error")} {exch.get("driver_error")} {judge.get("driver_error")} ({label})')
+    if 'driver_error' in model or 'driver_error' in judge:
+        raise RuntimeError(f'driver error: {model.get("driver_error")} {judge.get("driver_error")} ({label})')
+    exch = model
     # exchange correspondence: the model's reply / driver calls / emitted messages / cache for every request of the sweep
     if ctx.model_ok and data.get('generated'):
         d = c04.compare(exch, rec)
@@ -654,7 +654,7 @@ def run(ctx):
         for i in range(0, len(reqs), 40):
             answers += ctx.driver.batch(reqs[i:i + 40])
         for j, (label, case, data) in enumerate(items):
-            evaluate(ctx, res, label, case, data, answers[3 * j], answers[3 * j + 1], answers[3 * j + 2])
+            evaluate(ctx, res, label, case, data, answers[2 * j], answers[2 * j + 1])
 
     # phase 1: generated nodes (fake drivers).  phase 2: the shipped configurations, whose drivers are REAL code: they are
     # probed only with requests the node must refuse before any driver is involved, and only when phase 1 found the tree
@@ -693,9 +693,9 @@ def replay(ctx, rp):
                                          for m in data['report1']])[:1500])
     same = 'report' in a[0] and norm_report(a[0]['report']) == norm_report(data['report1'])
     print('model report equal:', same)
-    print('judge:', a[2])
+    print('judge:', a[1])
     res = Result()
-    evaluate(ctx, res, 'replay', case, data, a[0], a[1], a[2])
+    evaluate(ctx, res, 'replay', case, data, a[0], a[1])
     for d in res.disagreements:
         print('model and implementation disagree:', json.dumps(d, default=str)[:600])
         same = False
